@@ -106,7 +106,7 @@ def dataset_case(args) -> dict:
     try:
         from sedpack.io import Dataset
         _, ref = dsfamily.build(root, name)
-        fmt = dsfamily.RECIPES[name][0]
+        fmt = (dsfamily.RECIPES.get(name) or dsfamily.EXTRA[name])[0]
         dataset = Dataset(root)
         seen = set()
         for split, want in ref.items():
@@ -117,7 +117,8 @@ def dataset_case(args) -> dict:
             for iface in dsfamily.interfaces(fmt, with_rust=True):
                 reps = 3 if iface == "tf" and tier == "thorough" else 1
                 for sh in shuffles:
-                    for par in (pars if iface != "sync" else [None]):
+                    # None: the interface's own default (the CPU count)
+                    for par in (pars + [None] if iface != "sync" else [None]):
                         for with_pr in ((False, True)
                                         if iface != "tf" else (False,)):
                             for _ in range(reps):
@@ -186,7 +187,8 @@ def dataset_case(args) -> dict:
 
 
 def run_datasets(ctx, ex) -> None:
-    names = list(dsfamily.RECIPES)
+    # many64: more shards than 3 x the default parallelism (CPU count) + 2
+    names = list(dsfamily.RECIPES) + ["many64"]
     tot = 0
     distinct = 0
     for r in ex.map(dataset_case, [(n, ctx.tier) for n in names]):
